@@ -4176,6 +4176,9 @@ class DecAffine(Affine):
             if self.model is not x.model:
                 raise ValueError('Models mismatch.')
             event_adapt = comb_set(event_adapt, x.event_adapt)
+        elif isinstance(x, (Vars, VarSub, Affine)):
+            if self.model is not x.model:
+                raise ValueError('Models mismatch.')
 
         if isinstance(z, (DecVar, DecVarSub)):
             if z.to_affine().size > 1:
@@ -4188,6 +4191,9 @@ class DecAffine(Affine):
             if self.model is not z.model:
                 raise ValueError('Models mismatch.')
             event_adapt = comb_set(event_adapt, z.event_adapt)
+        elif isinstance(z, (Vars, VarSub, Affine)):
+            if self.model is not z.model:
+                raise ValueError('Models mismatch.')
 
         return DecExpConstr(ExpConstr(self.model, x, self, z), event_adapt)
 
